@@ -69,5 +69,16 @@ CLAIMED["C15"] = dict(
     note="Trusted: Lean kernel, harness/door, base64 (decoded credentials are model inputs), tokio's read_exact/duplex, the kernel's UDP "
          "connect (an IPv6 relay address fails on the IPv4-bound socket: model follows the observed behaviour).",
 )
+CLAIMED["C05"] = dict(
+    text="Unbounded Lean theorems about the demultiplexer model: an accepted connection is served by the entry its SNI designates "
+         "(exact name of its own class under uniqueness, configured alternative SNI, <credentials>.<main host>) with that entry's "
+         "channel and certificate identity; an SNI designating nothing is refused; the protocol is the best of offered, enabled and "
+         "channel-permitted ones, HTTP/1.1 only for an empty offer; unknown ALPNs are ignored; TCP never yields HTTP/3; a failed reload "
+         "keeps the old configuration and every selection in a history is answered from exactly one configuration. Tied to "
+         "tls_demultiplexer.rs / core.rs by ~28k differential selections per run, reload histories and a concurrent reload/select suite.",
+    note="Trusted: Lean kernel, harness/door, rustls/BoringSSL certificate presentation, RwLock atomicity (exercised). On TCP an offer "
+         "containing h3 next to http/1.1 selects h3 and is then refused by the acceptor rather than served over http/1.1 - consistent "
+         "with 'HTTP/3 is never selected on TCP'; TCP clients do not offer h3.",
+)
 NOT_CLAIMED = {p: "not yet built in this framework (planned, see DESIGN.md section 5)" for p in
-               ["C01", "C02", "C05", "C07", "C08", "C09", "C10", "C13", "C14", "C16", "C17", "C18", "C19", "C20"]}
+               ["C01", "C02", "C07", "C08", "C09", "C10", "C13", "C14", "C16", "C17", "C18", "C19", "C20"]}
